@@ -1,65 +1,248 @@
+// C14: encoders are faithful and decoders total (JSON, serialize, base64, URL, hex, md5/hash,
+// protobuf wire).
+//
+// Form P at builtin level: the builtins are called directly in-process (vm.GetFunc -> arguments
+// bound the way node.CallExpression binds them -> Call) on one long-lived VM, so millions of inputs
+// are feasible; a script-level pass binds that seam to the script surface for every value tree of
+// depth <= 1 and every byte string of length <= 1. Every family below is enumerated completely.
 package main
 
 import (
+	"encoding/json"
 	"fmt"
 	"os"
+	"sort"
+	"strings"
 	"time"
 
-	"github.com/php-any/origami/data"
+	"verif/engine/ev"
+	"verif/engine/pool"
 	"verif/engine/runner"
 )
 
-func show(v data.Value) string {
-	if v == nil {
-		return "<nil>"
-	}
-	switch x := v.(type) {
-	case *data.ArrayValue:
-		s := "Arr["
-		for _, z := range x.List {
-			s += fmt.Sprintf("%q=>%s,", z.Name, show(z.Value))
-		}
-		return s + "]"
-	case *data.ObjectValue:
-		s := "Obj{"
-		x.RangeProperties(func(k string, v data.Value) bool { s += fmt.Sprintf("%q:%s,", k, show(v)); return true })
-		return s + "}"
-	}
-	return fmt.Sprintf("%T(%s)", v, v.AsString())
-}
-
 func main() {
-	if len(os.Args) > 1 {
-		src, _ := os.ReadFile(os.Args[1])
-		res, s := runner.RunKeep(string(src), runner.Opts{})
-		fmt.Printf("kind=%s class=%s msg=%s panic=%s\nout=%s\n", res.Kind, res.Class, res.Msg, res.PanicKey, res.Out)
-		for _, n := range []string{"a", "b", "c", "d", "e", "f", "g"} {
-			fmt.Println(n, show(s.Var(n)))
-		}
-		s.Close()
+	if pool.IsWorker() {
+		pool.Serve(map[string]pool.Handler{
+			"val": valWorker, "bind": bindWorker, "bytes": byteWorker, "bytebind": byteBindWorker,
+			"dec": decWorker, "pw": pwWorker,
+		})
+	}
+	if f := os.Getenv("VERIF_C14_PROBE"); f != "" {
+		probe(f)
 		return
 	}
-	e := getEnv()
-	r := e.call("json_encode", data.NewArrayValue([]data.Value{data.NewIntValue(1), data.NewStringValue("x")}))
-	fmt.Println(r.Kind, show(r.V))
-	r = e.call("json_decode", data.NewStringValue(`{"a":[1,2.5,{"b":null}]}`), data.NewBoolValue(true))
-	fmt.Println(r.Kind, show(r.V))
-	r = e.call("json_decode", data.NewStringValue(`{"a":[1,2.5,{"b":null}]}`))
-	fmt.Println(r.Kind, show(r.V))
-	r = e.call("json_decode", data.NewIntValue(5))
-	fmt.Println(r.Kind, r.Msg, show(r.V))
-	r = e.callStatic("Protowire", "parse", data.NewStringValue("\x08\x01"))
-	fmt.Println(r.Kind, r.Msg, show(r.V))
-	r = e.callStatic("Protowire", "parse", data.NewStringValue("\x08"))
-	fmt.Println(r.Kind, r.Msg, show(r.V))
-	t0 := time.Now()
-	for i := 0; i < 200000; i++ {
-		e.call("base64_encode", data.NewStringValue("ab"))
+	c := ev.New("C14")
+	defer runner.Cleanup()
+	if c.Replay != "" {
+		replay(c)
+		return
 	}
-	fmt.Println("base64 per call", time.Since(t0)/200000)
-	t0 = time.Now()
-	for i := 0; i < 200000; i++ {
-		e.call("json_decode", data.NewStringValue(`[1,"a"]`), data.NewBoolValue(true))
+	quick := c.Quick()
+	seed := int(c.Seed % 1000)
+	if seed < 0 {
+		seed = -seed
 	}
-	fmt.Println("json_decode per call", time.Since(t0)/200000)
+	seedRot = seed
+	c.SetBudget(6*time.Minute, 40*time.Minute)
+
+	var shards []pool.Shard
+	chunk := func(n int64, per int64, f func(lo, hi int64)) {
+		for lo := int64(0); lo < n; lo += per {
+			hi := lo + per
+			if hi > n {
+				hi = n
+			}
+			f(lo, hi)
+		}
+	}
+	// 1. value trees -> json_encode / serialize, reference read-back, own decoders
+	var nTrees int64
+	for fi, f := range valueFamilies(quick) {
+		nTrees += f.n()
+		fi := fi
+		chunk(f.n(), 4000, func(lo, hi int64) {
+			shards = append(shards, pool.Shard{Kind: "val", Arg: valShard{Quick: quick, Seed: seed, Fam: fi, Lo: lo, Hi: hi}})
+		})
+	}
+	// 2. script-level binding of the direct-call seam
+	nb := len(bindTrees())
+	chunk(int64(nb), 250, func(lo, hi int64) {
+		shards = append(shards, pool.Shard{Kind: "bind", Arg: bindShard{Seed: seed, Lo: int(lo), Hi: int(hi)}})
+	})
+	shards = append(shards, pool.Shard{Kind: "bytebind", Arg: struct{}{}})
+	// 3. byte strings -> encoders and unstructured decoders
+	hot3 := hotBytes
+	if !quick {
+		for b := 0; b < 256; b += 5 {
+			hot3 = append(hot3, byte(b))
+		}
+		hot3 = dedupBytes(hot3)
+	}
+	for _, dec := range []bool{false, true} {
+		for first := -1; first < 256; first++ {
+			shards = append(shards, pool.Shard{Kind: "bytes", Arg: byteShard{Dec: dec, First: first, Hot3: hot3}})
+		}
+	}
+	// 4. structured text decoders: exhaustive short strings, edit neighbourhoods, ladders
+	seqLen := map[string]int{"chars": 5, "tokens": 4}
+	if !quick {
+		seqLen = map[string]int{"chars": 6, "tokens": 5}
+	}
+	for _, codec := range []string{"json", "ser"} {
+		dc := decCodecs[codec]
+		for _, an := range []string{"chars", "tokens"} {
+			alpha := dc.Alpha[an]
+			for l := 0; l <= seqLen[an]; l++ {
+				if l < 3 {
+					shards = append(shards, pool.Shard{Kind: "dec", Arg: decShard{Codec: codec, Mode: "seq", Alpha: an, Len: l, Prefix: []int{}, Quick: quick, Seed: seed}})
+					continue
+				}
+				for a := range alpha {
+					for b := range alpha {
+						shards = append(shards, pool.Shard{Kind: "dec", Arg: decShard{Codec: codec, Mode: "seq", Alpha: an, Len: l, Prefix: []int{a, b}, Quick: quick, Seed: seed}})
+					}
+				}
+			}
+		}
+		chunk(int64(len(dc.Bases(quick))), 8, func(lo, hi int64) {
+			shards = append(shards, pool.Shard{Kind: "dec", Arg: decShard{Codec: codec, Mode: "edit", Lo: int(lo), Hi: int(hi), Quick: quick, Seed: seed}})
+		})
+		chunk(int64(len(dc.Ladder(quick))), 6, func(lo, hi int64) {
+			shards = append(shards, pool.Shard{Kind: "dec", Arg: decShard{Codec: codec, Mode: "ladder", Lo: int(lo), Hi: int(hi), Quick: quick, Seed: seed}})
+		})
+	}
+	// 5. protobuf wire
+	for l := 0; l <= 3; l++ {
+		if l < 2 {
+			shards = append(shards, pool.Shard{Kind: "pw", Arg: pwShard{Mode: "bytes", Len: l, Prefix: []int{}, Quick: quick}})
+			continue
+		}
+		for a := 0; a < 256; a++ {
+			shards = append(shards, pool.Shard{Kind: "pw", Arg: pwShard{Mode: "bytes", Len: l, Prefix: []int{a}, Quick: quick}})
+		}
+	}
+	alphaLen := 5
+	if !quick {
+		alphaLen = 6
+	}
+	for l := 4; l <= alphaLen; l++ {
+		for a := range wireAlpha {
+			for b := range wireAlpha {
+				shards = append(shards, pool.Shard{Kind: "pw", Arg: pwShard{Mode: "alpha", Len: l, Prefix: []int{a, b}, Quick: quick}})
+			}
+		}
+	}
+	chunk(int64(len(pwBases())), 4, func(lo, hi int64) {
+		shards = append(shards, pool.Shard{Kind: "pw", Arg: pwShard{Mode: "edit", Lo: int(lo), Hi: int(hi), Quick: quick}})
+	})
+	chunk(int64(len(pwLadders())), 400, func(lo, hi int64) {
+		shards = append(shards, pool.Shard{Kind: "pw", Arg: pwShard{Mode: "ladder", Lo: int(lo), Hi: int(hi), Quick: quick}})
+	})
+	for i := 0; i < 32; i++ {
+		shards = append(shards, pool.Shard{Kind: "pw", Arg: pwShard{Mode: "method", Lo: i, Hi: 32, Quick: quick}})
+	}
+	shards = append(shards, pool.Shard{Kind: "pw", Arg: pwShard{Mode: "script", Quick: quick}}, pool.Shard{Kind: "pw", Arg: pwShard{Mode: "encode", Quick: quick}})
+
+	// long shards first (better balance)
+	sort.SliceStable(shards, func(i, j int) bool { return shardWeight(shards[i]) > shardWeight(shards[j]) })
+
+	var total, calls int64
+	famCount := map[string]int64{}
+	outcomes := map[string]int64{}
+	samples := 0
+	pool.Run(shards, pool.Options{}, func(si int, rb json.RawMessage) {
+		var r rec
+		json.Unmarshal(rb, &r)
+		switch r.Kind {
+		case "count":
+			total += r.N
+			calls += r.Calls
+			famCount[r.Fam] += r.N
+			for k, v := range r.Outcome {
+				outcomes[k] += v
+			}
+		case "fail":
+			c.Fail(r.Key, r.Clause, r.Size, r.Case, r.Detail)
+			for i := int64(1); i < r.Count && i < 500000; i++ {
+				c.Fail(r.Key, r.Clause, 1<<30, nil, "")
+			}
+			c.Add("failing_cases", r.Count)
+		case "sample":
+			if samples < 10 {
+				samples++
+				c.Sample(r.Case)
+			}
+		case "note":
+			if r.Key == "self-test" {
+				c.HarnessError("%s", r.Detail)
+			} else {
+				fmt.Fprintln(os.Stderr, "note:", r.Detail)
+			}
+		}
+	}, func(d pool.Death) {
+		fam := strings.SplitN(d.Item, " ", 2)[0]
+		c.Fail(fam+":worker-death:"+runner.FatalFrame(d.Stderr), "crash", 0, map[string]any{"kind": "death", "item": d.Item, "reason": d.Reason}, d.Stderr)
+	})
+	if c.Expired() {
+		c.NotExhaustive("wall-clock budget expired after the listed family counts")
+	}
+	for k, v := range outcomes {
+		for i := int64(0); i < v && i < 1; i++ {
+			c.Outcome(k)
+		}
+	}
+	c.Set("family_counts", famCount)
+	c.Set("outcome_case_counts", outcomes)
+	c.Set("value_trees", nTrees)
+	c.Set("builtin_calls", calls)
+	c.Set("seed_rotation", seed)
+	c.Assume("the reference for each format is the Go implementation named in the property (encoding/json, encoding/base64, net/url, encoding/hex, crypto/*, protowire.Consume*); for PHP serialize it is the strict reader in refs.go (N b i d s a; trailing blanks and '+' before an unsigned length are not judged)")
+	c.Assume("origami represents associative arrays and stdClass objects by the same ObjectValue; values are compared as PHP values (ordered maps with PHP key normalisation), so list [a,b] equals map {0:a,1:b} and array/object identity is not judged")
+	c.Assume("a string that is not valid UTF-8 has no JSON form: json_encode may refuse it (false / throw); emitting a different string is a read-back failure")
+	c.Assume("rawurlencode output is additionally read back as a query value through net/url.ParseQuery (RFC 3986 leaves no reserved character unescaped)")
+	c.Assume("protowire nesting: top level is level 1, each message/group content one deeper, max_depth = N admits N levels (pinned for messages by std/protowire TestDepthLimit); a field configured both packed and message may be read either way")
+	c.Assume("outside the bound: value trees deeper than 3 / wider than 3, decoder inputs that are neither short, nor within edit distance 1 of a reference encoding, nor a ladder; objects (O:) in serialize; var_export; JSON flags; hash algorithms without a Go standard-library reference (xxh3)")
+	if len(outcomes) < 12 || outcomes["tree ok"] == 0 || outcomes["json well-formed, agrees"] == 0 || outcomes["protowire cases"] == 0 {
+		c.HarnessError("vacuous: outcomes %v", outcomes)
+	}
+	c.Finish(total, calls, calls, "complete enumeration per family (see coverage.family_counts): value trees depth<=2/3 -> json_encode+serialize with reference read-back and own-decoder round trip; all byte strings len<=2 + hot-set len 3 -> base64/url/rawurl/hex/md5/hash and their decoders; all strings of <=k symbols over char and token alphabets + edit-distance-1 neighbourhoods of reference encodings + nesting ladders -> json_decode (both modes) and unserialize; all byte strings len<=3, all strings <=k over the wire alphabet, edit neighbourhoods and message/group chains to depth 70 under every relevant option combination -> ParseRawFields vs an independent walker; states = cases, executions = builtin calls")
+}
+
+func dedupBytes(b []byte) []byte {
+	seen := map[byte]bool{}
+	var out []byte
+	for _, c := range b {
+		if !seen[c] {
+			seen[c] = true
+			out = append(out, c)
+		}
+	}
+	return out
+}
+
+func shardWeight(s pool.Shard) int {
+	switch a := s.Arg.(type) {
+	case pwShard:
+		switch a.Mode {
+		case "bytes":
+			if a.Len == 3 {
+				return 90
+			}
+		case "alpha":
+			return 50 + a.Len*10
+		case "method", "script":
+			return 100
+		}
+	case decShard:
+		if a.Mode == "ladder" {
+			return 100
+		}
+		if a.Mode == "seq" {
+			return 20 + a.Len*10
+		}
+		return 60
+	case bindShard:
+		return 95
+	}
+	return 10
 }
